@@ -29,6 +29,7 @@ Inductive spred :=
 | SInstr (hay : list Z) (a : sexpr)          (* instr(:hay, col) > 0 *)
 | SInstrCol (a : sexpr) (needle : list Z)    (* instr(col, :needle) > 0 *)
 | STruth (a : sexpr)                         (* WHERE col *)
+| SFalse                                     (* WHERE false *)
 | SAnd (p q : spred) | SOr (p q : spred).
 Inductive join :=
 | JRel (src : nat) (a : Z) (tgt : Z)         (* JOIN <alias of tgt> ON alias.database_id = src.a *)
@@ -92,6 +93,7 @@ Fixpoint eval_pred (env : list row) (p : spred) : tv :=
                 | VNull => TU
                 | _ => TF
                 end
+  | SFalse => TF
   | SAnd p q => tv_and (eval_pred env p) (eval_pred env q)
   | SOr p q => tv_or (eval_pred env p) (eval_pred env q)
   end.
@@ -117,6 +119,7 @@ Fixpoint pred_bad (p : spred) : bool :=
   | SCmp _ a b | SNullSafe _ a b => sx_bad a || sx_bad b
   | SIsNull _ a | SInstr _ a | SInstrCol a _ | STruth a => sx_bad a
   | SIn a vs => sx_bad a || existsb unbindable vs
+  | SFalse => false
   | SAnd p q | SOr p q => pred_bad p || pred_bad q
   end.
 
